@@ -19,10 +19,12 @@ for f in kf:
     if f['status'] == 'known':
         m = f['match']
         how = []
-        if m.get('predicate'): how.append('predicate `%s` (input-only)' % m['predicate'])
+        if m.get('predicate'): how.append('predicate `%s`' % m['predicate'])
         if m.get('cases'): how.append('%d exact case(s)' % len(m['cases']))
         if m.get('case_regex'): how.append('case regex')
         if m.get('class'): how.append('class `%s`' % m['class'])
+        if m.get('class_regex'): how.append('class regex')
+        if m.get('listed'): how.append('listed (case, class) pairs')
         out.append('| %s | %s | %s | %s |' % (f['id'], f['property'], esc(' + '.join(how)), esc(f['what'])))
 out.append('\n### 6a. Detection demonstrated\n')
 out.append('**Seeded changes written by fresh sub-agents** that saw only the property text and a scratch worktree (`seeded/<id>/`: patch, demonstration test, meta.json; each confirmed by `scripts/verify_seed.sh`: the repository\'s tests fail exactly as before, the demonstration fails with and passes without the patch):\n')
